@@ -242,6 +242,11 @@ func init() {
 			someFaults(g)
 			g.ft.PAvail = []float64{0.6, 0.8, 0.95}[g.r.Intn(3)]
 			g.ft.Optional, g.ft.Objects = true, true
+			if g.r.Intn(5) == 0 {
+				// what a panicking callback leaves behind must not make an
+				// available dependency unavailable later
+				g.ft.Callbacks, g.ft.FaultCB, g.ft.PRetry = true, 0.15, 0.5
+			}
 		}, Mix{Scope: 2, Provide: 10, Decorate: 2, Invoke: 9, VisStr: 0}),
 		Eval: evalSimple("C04", func(c *Checked) bool {
 			return c.Probes["optional_over_gap"] > 0 || c.Probes["missing_deep"] > 0
@@ -349,6 +354,7 @@ func init() {
 			g.ft.PAvail = 0.95
 			g.ft.NT = g.r.Range(2, 5)
 			g.ft.NamedSlice = g.r.P(0.3)
+			g.ft.PReenter = []float64{0, 0, 0.1}[g.r.Intn(3)]
 			if g.r.Intn(4) == 0 {
 				g.tmpl = (*genCtx).tmplDecorateFirst
 			}
@@ -370,6 +376,9 @@ func init() {
 			// foreign error inside dig's chain (malformed tag values)
 			g.ft.MalRate = []float64{0, 0.1, 0.25}[g.r.Intn(3)]
 			g.ft.MalTagsOnly = g.r.P(0.5)
+			if g.r.Intn(4) == 0 {
+				g.ft.Callbacks, g.ft.FaultCB, g.ft.PRetry = true, 0.15, 0.5
+			}
 		}, defaultMix),
 		Eval: evalSimple("C13", func(c *Checked) bool {
 			n := 0
